@@ -6,6 +6,7 @@ import (
 	"io"
 	"reflect"
 	"sort"
+	"strings"
 	"time"
 
 	astisub "github.com/asticode/go-astisub"
@@ -251,6 +252,20 @@ func c17Doc(c *fw.Ctx) (corpusDoc, string) {
 	variant := int(c.Idx/int64(len(corpusFormats))) % 8
 	td := testdataDocs()
 	switch {
+	case variant == 5 && (format == "srt" || format == "webvtt" || format == "ssa"):
+		// one text line of 4.5..9 KiB of multi-byte characters: read boundaries fall inside a character while the
+		// scanner is still looking for the end of the line
+		long := strings.Repeat(fw.Pick(c.R, []string{"é", "日本", "😀x", "ü—"}), c.R.Range(1500, 3000))
+		d := corpusDoc{Format: format, Ext: corpusExt[format], Read: corpusReader(format, astisub.TeletextOptions{}), Origin: "long multi-byte line"}
+		switch format {
+		case "srt":
+			d.Data = []byte("1\n00:00:01,000 --> 00:00:02,000\nfirst\n\n2\n00:00:03,000 --> 00:00:04,000\n" + long + "\n\n3\n00:00:05,000 --> 00:00:06,000\nlast\n")
+		case "webvtt":
+			d.Data = []byte("WEBVTT\n\n00:00:01.000 --> 00:00:02.000\nfirst\n\n00:00:03.000 --> 00:00:04.000\n" + long + "\n\n00:00:05.000 --> 00:00:06.000\nlast\n")
+		default:
+			d.Data = []byte("[Script Info]\nTitle: t\n\n[Events]\nFormat: Start, End, Text\nDialogue: 0:00:01.00,0:00:02.00,first\nDialogue: 0:00:03.00,0:00:04.00," + long + "\nDialogue: 0:00:05.00,0:00:06.00,last\n")
+		}
+		return d, "longline"
 	case variant == 7:
 		return bigDoc(c.R, format), "big"
 	case variant == 6:
@@ -333,7 +348,7 @@ func c17Run(c *fw.Ctx) fw.Outcome {
 			add(k)
 		}
 		for _, base := range []int{4096, 8192, 65536, 131072} {
-			for dlt := -2; dlt <= 2; dlt++ {
+			for dlt := -4; dlt <= 4; dlt++ {
 				add(base + dlt)
 				add(n - base + dlt)
 			}
